@@ -3,8 +3,10 @@
 import json, os, shutil, sys
 pid, m, demo_dir, caught = sys.argv[1:5]
 note = sys.argv[5] if len(sys.argv) > 5 else ""
-src = '/tmp/seed/%s.out' % pid
-dst = '/verif/seeded/%s-%s' % (pid, m)
+rnd = os.environ.get('SEED_ROUND', '')
+src = (os.environ.get('SEEDOUT', '/tmp/seed')) + '/%s.out' % pid
+tag = ('r%s' % rnd if rnd else '') + m
+dst = '/verif/seeded/%s-%s' % (pid, tag)
 os.makedirs(dst, exist_ok=True)
 shutil.copy(os.path.join(src, m + '.diff'), os.path.join(dst, 'patch.diff'))
 shutil.copy(os.path.join(src, m + '_demo_test.go'), os.path.join(dst, 'demo_test.go.txt'))
@@ -13,7 +15,7 @@ if os.path.exists(os.path.join(src, m + '.md')):
     md = open(os.path.join(src, m + '.md')).read()
     shutil.copy(os.path.join(src, m + '.md'), os.path.join(dst, 'author_notes.md'))
 meta = {
-    "id": "%s-%s" % (pid, m),
+    "id": "%s-%s" % (pid, tag),
     "property": pid,
     "written_by": "independent sub-agent given only the property text and a scratch worktree of /repo (HEAD at the time: see patch base)",
     "needs_to_manifest": md.strip().split('\n\n')[0][:1500] if md else "",
